@@ -55,6 +55,8 @@ func rulesC01(c *Ctx) {
 	// "the caller receives precisely the outermost policy's result and error", also through the async accessors
 	// (Get, Result, Error all report what the runner recorded)
 	asyncResultRules(c)
+	// "the individual policies' documented behaviours" are those of the policy as built: Build snapshots the builder
+	buildCopiesConfig(c)
 }
 
 // resultField loads field f of the PolicyResult a returned pointer term points to.
@@ -304,7 +306,17 @@ func c01Leaf(c *Ctx) {
 		}
 		if ua := calls[0].Args[0]; !ua.IsNilConst() {
 			cp := eventsWhere(p, func(e *Event) bool { return isCall(e, "copy") && e.Recv == exec && len(e.Res) == 1 && e.Res[0] == ua })
-			if len(cp) != 1 {
+			adapted := false
+			if len(cp) != 1 && userFn != nil && userFn.Typ != nil {
+				// the function called here takes the library's own *execution: it is one of the library's adapters, never
+				// the user's function; each of them must keep the live execution to itself
+				if sg, isSig := userFn.Typ.Underlying().(*types.Signature); isSig && sg.Params().Len() == 1 && isConcreteExecution(sg.Params().At(0).Type()) {
+					if okA, _, _ := adaptersConfineExecution(c); okA {
+						adapted = true
+					}
+				}
+			}
+			if len(cp) != 1 && !adapted {
 				ok = false
 				c.Fail(name, pos, "the user function receives the live, lock-protected execution instead of a private copy (execInternal.copy()): its LastResult/LastError are rewritten when a Timeout cancels the attempt, so a function that is still running would observe another attempt's outcome and race with Cancel", pathTrace(ev, p))
 				continue
@@ -852,20 +864,54 @@ func c01Outermost(c *Ctx) {
 			}
 			async := inner[0].Method == "executeAsync"
 			withExec := w == "RunWithExecution" || w == "GetWithExecution" || w == "RunWithExecutionAsync" || w == "GetWithExecutionAsync"
-			if len(inner[0].Args) < 2 {
+			// executeSync(adapter(fn)) without a flag: the wrapper closure takes the library's own *execution, and it is the
+			// wrapper that hands the user function a private copy (or nothing)
+			adapted := len(inner[0].Args) < 2 && !direct && len(cl0(inner[0]).Fn.Params) == 1 && isConcreteExecution(cl0(inner[0]).Fn.Params[0].Type())
+			if adapted {
+				cl := inner[0].Args[0]
+				ex := ev.TS.intern(&T{Op: "param", Aux: "exec", Typ: cl.Fn.Params[0].Type()})
+				for _, q := range ev.CallTerm(p.State, cl, []*T{ex}) {
+					calls := eventsWhere(q, func(e *Event) bool { return isDynCall(e, userFn) && e.Idx >= len(p.Events()) })
+					isGet := w == "Get" || w == "GetWithExecution" || w == "GetAsync" || w == "GetWithExecutionAsync"
+					good := len(calls) == 1 && q.Exit == ExitReturn && len(q.Rets) == 2
+					if good && withExec {
+						good = len(calls[0].Args) == 1 && len(eventsWhere(q, func(e *Event) bool {
+							return isCall(e, "copy") && e.Recv == ex && len(e.Res) == 1 && e.Res[0] == calls[0].Args[0]
+						})) == 1
+					}
+					if good && !withExec && len(calls[0].Args) != 0 {
+						good = false
+					}
+					if good && isGet && (q.Rets[0] != calls[0].Res[0] || q.Rets[1] != calls[0].Res[1]) {
+						good = false
+					}
+					if good && !isGet && q.Rets[1] != calls[0].Res[0] {
+						good = false
+					}
+					if !good {
+						ok = false
+						c.Fail(c.fn(fn), c.P.FuncPos(fn), "the adapter must call the user function exactly once, with a private copy of the execution when it takes one, and return its values", pathTrace(ev, q))
+					}
+				}
+			}
+			if len(inner[0].Args) < 2 && !adapted {
 				ok = false
 				c.Fail(c.fn(fn), c.P.FuncPos(fn), "the entry point does not say whether the user function takes the execution (executeSync / executeAsync called without the withExec flag)", pathTrace(ev, p))
 				continue
 			}
-			if b, isC := inner[0].Args[1].IsConstBool(); !isC || b != withExec {
-				ok = false
-				c.Fail(c.fn(fn), c.P.FuncPos(fn), "withExec flag does not match the entry point", pathTrace(ev, p))
+			if !adapted {
+				if b, isC := inner[0].Args[1].IsConstBool(); !isC || b != withExec {
+					ok = false
+					c.Fail(c.fn(fn), c.P.FuncPos(fn), "withExec flag does not match the entry point", pathTrace(ev, p))
+				}
 			}
 			// the wrapper closure calls the user fn exactly once and returns its values
 			cl := inner[0].Args[0]
 			var wrapperPaths []*Path
 			var ex *T
-			if direct {
+			if adapted {
+				// checked above
+			} else if direct {
 				// only an entry point whose user function already has the shape execute expects can pass it through
 				isGetW := w == "GetWithExecution" || w == "GetWithExecutionAsync"
 				if !isGetW || !withExec {
@@ -916,6 +962,56 @@ func c01Outermost(c *Ctx) {
 		}
 	}
 	c.Floor("entry points", n, 8)
+}
+
+func cl0(e *Event) *T { return e.Args[0] }
+
+// isConcreteExecution: t is *execution[R], the library's own execution struct (which no user code can name).
+func isConcreteExecution(t types.Type) bool {
+	pt, ok := t.(*types.Pointer)
+	if !ok {
+		return false
+	}
+	n, ok := pt.Elem().(*types.Named)
+	if !ok || n.Obj().Pkg() == nil || n.Obj().Pkg().Path() != modPath || n.Obj().Exported() {
+		return false
+	}
+	return typeCanonName(n.Obj()) == "execution"
+}
+
+// adaptersConfineExecution: every function of package failsafe that takes just the library's own *execution and
+// returns (R, error) — the only values the leaf's function parameter can hold, since user code cannot name the type —
+// uses that execution for nothing but execution.copy(): the user function behind it gets a private copy or nothing.
+func adaptersConfineExecution(c *Ctx) (bool, int, string) {
+	n := 0
+	for _, f := range c.P.Funcs {
+		if f.Pkg == nil || f.Pkg.Pkg.Path() != modPath || len(f.Blocks) == 0 {
+			continue
+		}
+		sig := f.Signature
+		if sig.Recv() != nil || len(f.Params) != 1 || sig.Results().Len() != 2 || !isConcreteExecution(f.Params[0].Type()) {
+			continue
+		}
+		n++
+		refs := f.Params[0].Referrers()
+		if refs == nil {
+			continue
+		}
+		for _, r := range *refs {
+			if _, isDbg := r.(*ssa.DebugRef); isDbg {
+				continue
+			}
+			call, isCall := r.(*ssa.Call)
+			if isCall {
+				cal := calleeOf(&call.Call)
+				if cal != nil && canonName(cal) == "copy" && len(call.Call.Args) == 1 && call.Call.Args[0] == ssa.Value(f.Params[0]) {
+					continue
+				}
+			}
+			return false, n, c.fn(f) + " uses the live execution for more than taking a copy (" + c.P.Pos(r.Pos()) + ")"
+		}
+	}
+	return n > 0, n, "no adapter found"
 }
 
 // ---- C01.wrapper ---------------------------------------------------------------------------------------
